@@ -174,6 +174,44 @@ class RowTracker:
                 self.env[nm] = ast.IfExp(test=self.subst(st.test), body=self.subst(st.body[0].value), orelse=self.subst(st.orelse[0].value))
                 self.objs.pop(nm, None)
                 return
+            # a special-case arm that ends the iteration (`if <cond>: …; continue`): an alternative complete iteration.  What
+            # it stores into the target is recorded separately (branch_finals) and must satisfy the same rule; the main path
+            # goes on with the statements after the `if`
+            if st.body and isinstance(st.body[-1], ast.Continue) and not st.orelse and self.target_prefix is not None:
+                import copy as _copy
+
+                sub = _copy.copy(self)
+                sub.env, sub.objs, sub.final, sub.after_final = dict(self.env), dict(self.objs), [], []
+                for x in st.body[:-1]:
+                    sub.stmt(x)
+                if not hasattr(self, "branch_finals"):
+                    self.branch_finals = []
+                self.branch_finals.append((norm(st.test), list(sub.final), st.lineno))
+                return
+            if st.body and st.orelse and self.target_prefix is not None:
+                # a two-armed branch the tracker cannot decide: each arm is followed on its own copy of the state.  The arm
+                # that builds a tracked array becomes the main path; what the other arm stores into the target is recorded
+                # (branch_finals) and must satisfy the same rule
+                import copy as _copy
+
+                arms = []
+                for arm_, pol_ in ((st.body, True), (st.orelse, False)):
+                    sub = _copy.copy(self)
+                    sub.env, sub.objs, sub.final, sub.after_final = dict(self.env), dict(self.objs), list(self.final), list(self.after_final)
+                    for x in arm_:
+                        if isinstance(x, ast.Continue):
+                            break
+                        sub.stmt(x)
+                    arms.append((sub, pol_))
+                n0 = len(self.final)
+                good = [a for a in arms if any(f_[1] is not None for f_ in a[0].final[n0:])]
+                main = (good[-1] if good else arms[-1])
+                other = [a for a in arms if a is not main][0]
+                if not hasattr(self, "branch_finals"):
+                    self.branch_finals = []
+                self.branch_finals.append((norm(st.test) if other[1] else f"not ({norm(st.test)})", list(other[0].final[n0:]), st.lineno))
+                self.env, self.objs, self.final, self.after_final = main[0].env, main[0].objs, main[0].final, main[0].after_final
+                return
             raise AnalysisError(f"{self.where}: branch `{norm(st.test)[:60]}` inside the array loop is outside the recognised fragment")
         if isinstance(st, ast.AugAssign):
             t = st.target
